@@ -220,6 +220,8 @@ def run(ctx, spec):
             # keep per-connection well-formedness: truncating a stream keeps prefixes of every connection
         sup = rng.random() < 0.5
         fin = rng.random() < 0.6
+        if not fin and items and items[-1][0] == 'chat' and items[-1][1] == '':
+            fin = True      # an empty last line without newline is no line at all
         ls = lines_of(items, fin)
         case = {'lines': ls, 'supress': sup}
         s, ok = run_full(ctx, st, items, not sup, fin, case)
